@@ -15,7 +15,7 @@ def continuations(rng, thorough):
     base = [b"", b"\x00", b"\x00\x00", b"\x00\x00\x00", b"\xff\xff\xff", b"\x03\x00\x00\x00\x00", b"\xff\xff\xff\xff\xff\xff",
             b"\x00\x00\x00\x80\x03", b"\x00\x10\x61\x03", b"\x00\x00\x00\x00\x01\x03", b"\x01\x00\x00\x40\x00\x03",
             b"\x80\x00\x00\x00\x00\x00\x00\x03"]
-    more = [bytes(rng.randrange(256) for _ in range(rng.choice([1, 2, 3, 4, 6, 9]))) for _ in range(20)]
+    more = [bytes(rng.randrange(256) for _ in range(rng.choice([1, 2, 3, 4, 6, 9]))) for _ in range(12)]
     allc = base + more
     return allc if thorough else base[:3] + [base[5], base[7], base[9]] + more[:2]
 
@@ -226,8 +226,8 @@ def check(run):
     finals, reached = {}, set()
     for prof in profiles:
         # ---- sweeps
-        si = tools.impl(sweeps, prof)
-        sm = tools.model(sweeps) if prof == "dev" else sm
+        si = tools.impl(sweeps, prof, timeout=2700)
+        sm = tools.model(sweeps, timeout=2700) if prof == "dev" else sm
         # sweep lines on which implementation and model disagree, or the spec fails, are expanded into
         # individual scripts: first the sub-cases that panicked / looped / failed the spec (concrete
         # failing inputs), then - for lines that only disagree - a few whole lines
